@@ -165,18 +165,17 @@ func (s *MemoryStore) Enqueue(env Envelope) error {
 	now := s.nowFn()
 	s.maybePruneLocked(now)
 
+	// Validate first, evict last: a refused enqueue must leave the queue untouched.
+	var victims []string
 	if s.maxDepth > 0 {
-		activeCount := s.activeCountLocked()
-		activeDeliveredCount := s.activeDeliveredCountLocked()
-		for activeCount >= s.maxDepth || (s.deliveredRetentionMaxAge > 0 && activeDeliveredCount >= s.maxDepth) {
+		if need := s.evictionsNeededLocked(1); need > 0 {
 			if s.dropPolicy != "drop_oldest" {
 				return ErrQueueFull
 			}
-			if !s.dropOldestQueuedLocked() {
+			victims = s.oldestQueuedIDsLocked(need)
+			if len(victims) < need {
 				return ErrQueueFull
 			}
-			activeCount = s.activeCountLocked()
-			activeDeliveredCount = s.activeDeliveredCountLocked()
 		}
 	}
 
@@ -188,8 +187,11 @@ func (s *MemoryStore) Enqueue(env Envelope) error {
 	if env.ID == "" {
 		env.ID = newHexID("evt_")
 	}
-	if _, exists := s.items[env.ID]; exists {
+	if _, exists := s.items[env.ID]; exists && !containsID(victims, env.ID) {
 		return ErrEnvelopeExists
+	}
+	for _, id := range victims {
+		s.evictLocked(id, memoryEvictionReasonDropOldest)
 	}
 	if env.State == "" {
 		env.State = StateQueued
@@ -237,16 +239,18 @@ func (s *MemoryStore) EnqueueBatch(items []Envelope) (int, error) {
 	now := s.nowFn()
 	s.maybePruneLocked(now)
 
-	// Pre-validate: check depth, duplicates, and prepare copies.
-	activeCount := s.activeCountLocked()
-	activeDeliveredCount := s.activeDeliveredCountLocked()
+	// Pre-validate: check depth, duplicates, and prepare copies. Nothing is
+	// evicted until every check has passed, so a refused batch leaves the
+	// queue untouched.
 	needed := len(items)
+	var victims []string
 	if s.maxDepth > 0 {
-		if s.dropPolicy != "drop_oldest" {
-			if activeCount+needed > s.maxDepth {
+		if need := s.evictionsNeededLocked(needed); need > 0 {
+			if s.dropPolicy != "drop_oldest" {
 				return 0, ErrQueueFull
 			}
-			if s.deliveredRetentionMaxAge > 0 && activeDeliveredCount+needed > s.maxDepth {
+			victims = s.oldestQueuedIDsLocked(need)
+			if len(victims) < need {
 				return 0, ErrQueueFull
 			}
 		}
@@ -263,7 +267,7 @@ func (s *MemoryStore) EnqueueBatch(items []Envelope) (int, error) {
 			return 0, ErrEnvelopeExists
 		}
 		seenIDs[env.ID] = struct{}{}
-		if _, exists := s.items[env.ID]; exists {
+		if _, exists := s.items[env.ID]; exists && !containsID(victims, env.ID) {
 			return 0, ErrEnvelopeExists
 		}
 		if env.State == "" {
@@ -291,23 +295,15 @@ func (s *MemoryStore) EnqueueBatch(items []Envelope) (int, error) {
 		prepared = append(prepared, &cpy)
 	}
 
-	// Handle depth overflow with drop_oldest.
-	if s.maxDepth > 0 {
-		for activeCount+len(prepared) > s.maxDepth || (s.deliveredRetentionMaxAge > 0 && activeDeliveredCount+len(prepared) > s.maxDepth) {
-			if !s.dropOldestQueuedLocked() {
-				return 0, ErrQueueFull
-			}
-			activeCount = s.activeCountLocked()
-			activeDeliveredCount = s.activeDeliveredCountLocked()
-		}
-	}
-
 	if pressure := s.memoryPressureStatusLocked(); pressure.Active {
 		s.memoryPressureRejects++
 		return 0, ErrMemoryPressure
 	}
 
-	// Commit all items.
+	// Every check passed: make room (drop_oldest), then commit all items.
+	for _, id := range victims {
+		s.evictLocked(id, memoryEvictionReasonDropOldest)
+	}
 	for _, env := range prepared {
 		s.items[env.ID] = env
 		s.order = append(s.order, env.ID)
@@ -459,16 +455,49 @@ func envelopeRetainedBytes(env *Envelope) int64 {
 	return size
 }
 
-func (s *MemoryStore) dropOldestQueuedLocked() bool {
+// evictionsNeededLocked returns how many queued items must be dropped to admit
+// incoming new items under max_depth (0 when there is room).
+func (s *MemoryStore) evictionsNeededLocked(incoming int) int {
+	need := s.activeCountLocked() + incoming - s.maxDepth
+	if s.deliveredRetentionMaxAge > 0 {
+		if n := s.activeDeliveredCountLocked() + incoming - s.maxDepth; n > need {
+			need = n
+		}
+	}
+	if need < 0 {
+		return 0
+	}
+	return need
+}
+
+// oldestQueuedIDsLocked returns up to n queued item IDs in eviction order
+// without modifying the store.
+func (s *MemoryStore) oldestQueuedIDsLocked(n int) []string {
+	if n <= 0 {
+		return nil
+	}
+	out := make([]string, 0, n)
 	for _, id := range s.order {
+		if len(out) >= n {
+			break
+		}
 		env := s.items[id]
-		if env == nil {
+		if env == nil || env.State != StateQueued {
 			continue
 		}
-		if env.State != StateQueued {
+		if containsID(out, id) {
 			continue
 		}
-		return s.evictLocked(id, memoryEvictionReasonDropOldest)
+		out = append(out, id)
+	}
+	return out
+}
+
+func containsID(ids []string, id string) bool {
+	for _, v := range ids {
+		if v == id {
+			return true
+		}
 	}
 	return false
 }
